@@ -18,7 +18,7 @@ import signal
 import warnings
 from typing import Any, Dict, Iterator, List, Set, Tuple
 
-from checks.codec_common import make_unit_fn, minimize_keys, prog_case, replay_with, tagkey
+from checks.codec_common import make_contextualize, make_unit_fn, minimize_keys, prog_case, replay_with, tagkey
 from mcx.core import Ctx, Part, digest, pmap, repo_root
 from odxmodel import harness, refodx, space
 from odxmodel.harness import jval, show
@@ -280,22 +280,30 @@ def somersault_unit(unit: Tuple[str, int, int]) -> Part:
     return part
 
 
-def run(ctx: Ctx) -> None:
-    progs_c = [p for p in space.layer_c_programs(ctx.quick) if len(p["tags"][1].split("+")) <= (2 if ctx.quick else 3) or p.get("kind", "REQUEST") != "REQUEST"]
+def units_for(quick: bool) -> List[Any]:
+    progs_c = [p for p in space.layer_c_programs(quick) if len(p["tags"][1].split("+")) <= (2 if quick else 3) or p.get("kind", "REQUEST") != "REQUEST"]
     for p in progs_c:
         single = len(p["tags"][1].split("+")) <= 1
-        p["maxlen"] = (3 if single else 2) if ctx.quick else (4 if single else 3)
+        p["maxlen"] = (3 if single else 2) if quick else (4 if single else 3)
     chunk = 100
-    units = [(f"C/{c // chunk}", progs_c[c:c + chunk]) for c in range(0, len(progs_c), chunk)]
-    a_units = space.layer_a_minmax_units(ctx.quick) + space.layer_a_lead_units(ctx.quick) + space.layer_a_plen_units(ctx.quick) + \
-        space.layer_a_string_units(ctx.quick) + space.layer_a_float_units(ctx.quick) + space.layer_a_mask_units(ctx.quick)
+    units: List[Any] = [(f"C/{c // chunk}", progs_c[c:c + chunk]) for c in range(0, len(progs_c), chunk)]
+    a_units = space.layer_a_minmax_units(quick) + space.layer_a_lead_units(quick) + space.layer_a_plen_units(quick) + \
+        space.layer_a_string_units(quick) + space.layer_a_float_units(quick) + space.layer_a_mask_units(quick)
     for name, progs in a_units:
         for c in range(0, len(progs), chunk):
             units.append((f"{name}/{c // chunk}", progs[c:c + chunk]))
-    for name, progs in space.layer_b_units(ctx.quick):
+    for name, progs in space.layer_b_units(quick):
         units.append((name, progs))
     ints = space.layer_a_int_units(True)
-    units += ints if not ctx.quick else ints[::4]
+    units += ints if not quick else ints[::4]
+    return units
+
+
+contextualize = make_contextualize(PROPERTY, units_for)
+
+
+def run(ctx: Ctx) -> None:
+    units = units_for(ctx.quick)
     ctx.bounds = {"programs": "layer C depth <= %d, layer A" % (2 if ctx.quick else 3), "mutations": "all strict prefixes, substitutions by %s + program bytes + orig+-1 at every position, one insertion/deletion at every position" % (list(SUBST),),
                   "all_strings_upto": "quick: 3 for single-template programs, 2 otherwise; thorough: 4 and 3; over the program's byte alphabet",
                   "layer_B": "every 8-bit compu program of the shared space x all 256 one-byte PDUs",
@@ -305,7 +313,7 @@ def run(ctx: Ctx) -> None:
     ctx.rule = "program x byte string; non-trivial = distinct (construct, outcome class, length)"
     ctx.assumptions = ["warnings of category DecodeError are not exceptions and are ignored", "a decode running longer than 5 s counts as non-termination",
                        "'ends before the last parameter' is decided by the reference decoder running out of bytes (three-valued: only its Short verdict is used)"]
-    pmap(ctx, unit_fn, units)
+    pmap(ctx, unit_fn, units, isolate=True)
     import odxtools
     db = odxtools.load_pdx_file(os.path.join(repo_root(), "examples", "somersault.pdx"))
     sunits = [(l.short_name, 2 if ctx.quick else 3, sh) for l in db.diag_layers for sh in range(4)]
